@@ -81,7 +81,11 @@ func (w *World) main() {
 	}
 	w.api = kit.NewSimAPI(w.run, types.Scheme, []client.Object{&v1beta1.PodENI{}, &corev1.Pod{}, &corev1.Node{}}, objs...)
 	w.api.Decide = func(op string, obj runtime.Object) kit.APIFault {
-		switch w.faultAt("api." + op) {
+		f := w.faultAt("api." + op + "." + kit.KindOf(obj))
+		if g := w.faultAt("api." + op); f == "" {
+			f = g
+		}
+		switch f {
 		case "err":
 			return kit.APIErrBefore
 		case "err-after":
@@ -92,6 +96,12 @@ func (w *World) main() {
 		return kit.APIOk
 	}
 	w.api.OnWrite = w.onAPIWrite
+	if w.cfg.CacheLagMs > 0 {
+		w.api.EnableCache(func(kind string) time.Duration {
+			// one of: at once, a tenth, all of the configured lag
+			return time.Duration(w.cfg.CacheLagMs) * time.Millisecond * time.Duration([]int{0, 1, 10}[w.pick(3, "cache-lag")]) / 10
+		}, w.onDeliver)
+	}
 	for _, n := range nodeNames {
 		var t *daemon.ENI
 		if trunk {
@@ -193,10 +203,36 @@ func (w *World) truthPod(name string) *corev1.Pod {
 }
 
 func (w *World) podEvent(name string) {
+	if w.cfg.CacheLagMs > 0 {
+		return // the event fires when the informer delivers the change
+	}
 	if pod := w.truthPod(name); pod != nil && !podctl.ProcessPodForSim(pod) {
 		return
 	}
 	w.podQ.Add(name)
+}
+
+// onDeliver is the controllers' event handlers under the cache model.
+func (w *World) onDeliver(kind string, key client.ObjectKey, obj client.Object) {
+	switch kind {
+	case "Pod":
+		if obj != nil && !podctl.ProcessPodForSim(obj) {
+			return
+		}
+		w.podQ.Add(key.Name)
+	case "PodENI":
+		old := w.deliveredENI[key.Name]
+		if obj == nil {
+			delete(w.deliveredENI, key.Name)
+			w.eniQ.Add(key.Name)
+			return
+		}
+		cur := obj.(*v1beta1.PodENI)
+		w.deliveredENI[key.Name] = cur.DeepCopy()
+		if old == nil || old.UID != cur.UID || (old.ResourceVersion != cur.ResourceVersion && podeni.UpdateEventPassesForSim(old, cur)) {
+			w.eniQ.Add(key.Name)
+		}
+	}
 }
 
 func (w *World) createPod(p *podState, node string) {
@@ -205,7 +241,11 @@ func (w *World) createPod(p *podState, node string) {
 	p.node = node
 	p.exists, p.exited = true, false
 	p.created = time.Now()
-	if err := w.api.Inner.Create(context.Background(), w.podObject(p)); err != nil {
+	if rec := w.truthENI(p.spec.Name); rec != nil && rec.DeletionTimestamp.IsZero() && rec.Status.Phase != v1beta1.ENIPhaseDeleting && rec.Spec.HaveFixedIP() && len(p.lastIPs) > 0 {
+		w.keptAtCreate[p.uid] = true // a record whose addresses a predecessor really had is there for this incarnation to take over
+	}
+	obj := w.podObject(p)
+	if err := w.api.DirectWrite(obj, func() error { return w.api.Inner.Create(context.Background(), obj) }); err != nil {
 		panic(fmt.Sprintf("harness: create pod: %v", err))
 	}
 	w.run.S.Log("kubelet", "pod %s created uid=%s on %s (%s)", p.spec.Name, p.uid, node, p.spec.Kind)
@@ -230,7 +270,7 @@ func (w *World) setPhase(p *podState, phase corev1.PodPhase, v4, v6 string) {
 			pod.Status.PodIPs = append(pod.Status.PodIPs, corev1.PodIP{IP: ip})
 		}
 	}
-	_ = w.api.Inner.Status().Update(context.Background(), pod)
+	_ = w.api.DirectWrite(pod, func() error { return w.api.Inner.Status().Update(context.Background(), pod) })
 	w.podEvent(p.spec.Name)
 }
 
@@ -247,12 +287,12 @@ func (w *World) removePodObject(p *podState) {
 		return
 	}
 	if pod.DeletionTimestamp.IsZero() {
-		_ = w.api.Inner.Delete(context.Background(), pod)
+		_ = w.api.DirectWrite(pod, func() error { return w.api.Inner.Delete(context.Background(), pod) })
 		pod = w.truthPod(p.spec.Name)
 	}
 	if pod != nil {
 		pod.Finalizers = nil
-		_ = w.api.Inner.Update(context.Background(), pod)
+		_ = w.api.DirectWrite(pod, func() error { return w.api.Inner.Update(context.Background(), pod) })
 	}
 	p.exists = false
 	p.goneAt = time.Now()
@@ -282,7 +322,7 @@ func (w *World) podDown(p *podState, uid, mode string) {
 	default:
 		// graceful: deletion timestamp, containers stop, object removed
 		if pod := w.truthPod(p.spec.Name); pod != nil {
-			_ = w.api.Inner.Delete(context.Background(), pod)
+			_ = w.api.DirectWrite(pod, func() error { return w.api.Inner.Delete(context.Background(), pod) })
 			w.run.S.Log("kubelet", "pod %s terminating", p.spec.Name)
 			w.podEvent(p.spec.Name)
 		}
@@ -330,7 +370,8 @@ func (w *World) cniAdd(p *podState, uid string) {
 	}
 	w.run.S.Log("cni", "ADD return %s -> %v", p.spec.Name, ips)
 	// C10 O3: the gate opens only for a record that was bound to this very pod during the request
-	if !w.wasBoundSince(p.spec.Name, uid, begin) {
+	// (through a lagging cache the version it saw may be up to the lag older than the request)
+	if !w.wasBoundSince(p.spec.Name, uid, begin.Add(-time.Duration(w.cfg.CacheLagMs)*time.Millisecond)) {
 		w.run.Violate("C10", "gate", "daemon-accepted-record-not-bound-to-this-pod", "Remote.Allocate for %s (uid %s) succeeded although no version of the record was bound with that uid during the request", p.spec.Name, uid)
 	}
 	if rec := w.prevENI[p.spec.Name]; rec != nil {
